@@ -80,6 +80,12 @@ def run(args):
         if ok is False: ck.violation(name, 'B', detail)
         elif ok is None: ck.undecide(name, json.dumps(detail)[:200])
     ck.sample({'engine': 'B', 'obligation': res[0][0], 'detail': res[0][2]})
+    # ---------------- engine R: finite, positive, never raises, ratio <= 21
+    CT_, CV_ = 'cm_colors.core.contrast', 'cm_colors.core.conversions'
+    run_ranges(ck, prog, [f'{CV_}:srgb_to_linear', f'{CT_}:calculate_relative_luminance', f'{CT_}:calculate_contrast_ratio'], [
+        ('flare term dropped from the denominator', CT_, 'calculate_contrast_ratio', '    return (lighter + 0.05) / (darker + 0.05)', '    return (lighter + 0.05) / darker'),
+        ('linearisation offset with the wrong sign', CV_, 'srgb_to_linear', '        return pow((channel + 0.055) / 1.055, 2.4)', '        return pow((channel - 0.055) / 1.055, 2.4)'),
+    ])
     for cname, mod, old, new, target in B_CANARIES:
         mp = prog.mutate(mod, old, new)
         if mp is None: ck.notes.append(f"canary '{cname}': pattern no longer matches - skipped"); continue
